@@ -202,7 +202,7 @@ def compare(ck, loaded, want, case):
 
 def run(ck):
     rng = ck.rng('c19', ck.shard[0])
-    N = 6000 if not ck.thorough() else 200000
+    N = 6000 if not ck.thorough() else 1200000
     listen = [ipaddress.ip_address(a) for a in LISTEN]
     for i in range(N):
         if not ck.mine(i):
